@@ -17,12 +17,12 @@ From PV Require Import Base Crit gen.TermsTable Terms gen.C15Table.
 Record cfg := {
   cvis : ctor -> slot -> bool;      (* does class k's replace_table look into slot s? *)
   c_with_by_call : bool;            (* _with handled by calling replace_table on the AliasedQuery (else: rebuilt from its query) *)
-  c_join_by_call : bool;            (* Join.item handled by calling replace_table on it (else: compared with ==) *)
+  c_src_mode : ctor -> srcmode;     (* how QueryBuilder._from entries / Join, JoinOn, JoinUsing items are handled *)
   c_with_ok : bool;                 (* AliasedQuery has a replace_table method *)
   c_item_ok : bool                  (* Table has a replace_table method *)
 }.
 Definition tcfg : cfg :=
-  {| cvis := fun k s => existsb (slot_eqb s) (visited k); c_with_by_call := with_by_call; c_join_by_call := join_item_by_call;
+  {| cvis := fun k s => existsb (slot_eqb s) (visited k); c_with_by_call := with_by_call; c_src_mode := src_mode;
      c_with_ok := with_items_replaceable; c_item_ok := table_item_replaceable |}.
 
 (* the table Query.from_(Table(tbl)) of the shared AST's fixed sub-query leaf TSub *)
@@ -381,10 +381,20 @@ Definition subst_src (x : source) : source :=
 (* `new_table if item == current_table else item`: a comparison, sub-queries and named queries never compare equal *)
 Definition cmp_src (x : source) : source :=
   match x with SrcTable t => SrcTable (sw_tbl t) | _ => x end.
+(* compared with ==, and a sub-query (a Term) is entered through its own replace_table *)
+Definition enter_src (x : source) : source :=
+  match x with SrcTable t => SrcTable (sw_tbl t) | SrcSub q al => SrcSub (rep_q q) al | SrcNamed n => SrcNamed n end.
+Definition src_total (m : srcmode) (x : source) : source :=
+  match m with MCmpEnter => enter_src x | _ => cmp_src x end.
 Definition occ_src (x : source) : bool :=
   match x with SrcTable t => hit t | SrcSub q _ => occ_q q | SrcNamed _ => false end.
 (* a source is handled completely by the comparison iff it is a table, or A does not occur in it *)
 Definition cov_src (x : source) : bool := match x with SrcTable _ => true | _ => negb (occ_src x) end.
+Definition cov_src_m (m : srcmode) (x : source) : bool :=
+  match m with
+  | MCmpEnter => match x with SrcSub q _ => cov_q q | _ => true end
+  | _ => cov_src x
+  end.
 
 Definition subst_join (j : qjoin) : qjoin :=
   match j with
@@ -398,16 +408,19 @@ Definition rep_join (j : qjoin) : res qjoin :=
   match j with
   | JCross i =>
       if vis KJoin S_item then
-        if c_join_by_call cf then
+        match c_src_mode cf KJoin with
+        | MCall =>
           (* self.item = self.item.replace_table(..): a sub-query has the method, Table / AliasedQuery raise *)
           match i with
           | SrcSub q al => Ok (JCross (SrcSub (rep_q q) al))
           | _ => if c_item_ok cf then Ok (JCross (cmp_src i)) else Err "TypeError"
           end
-        else Ok (JCross (cmp_src i))      (* self.item = new if self.item == current else self.item *)
+        | m => Ok (JCross (src_total m i))
+        end
       else Ok j
-  | JOn h i c => Ok (JOn h (ifv (vis KJoinOn S_item) cmp_src i) (ifv (vis KJoinOn S_criterion) rep_wt c))
-  | JUsing h i fs => Ok (JUsing h (ifv (vis KJoinUsing S_item) cmp_src i) (ifv (vis KJoinUsing S_fields) (map rep) fs))
+  | JOn h i c => Ok (JOn h (ifv (vis KJoinOn S_item) (src_total (c_src_mode cf KJoinOn)) i) (ifv (vis KJoinOn S_criterion) rep_wt c))
+  | JUsing h i fs =>
+      Ok (JUsing h (ifv (vis KJoinUsing S_item) (src_total (c_src_mode cf KJoinUsing)) i) (ifv (vis KJoinUsing S_fields) (map rep) fs))
   end.
 Definition occ_join (j : qjoin) : bool :=
   match j with
@@ -419,11 +432,15 @@ Definition cov_join (j : qjoin) : bool :=
   match j with
   | JCross i =>
       if vis KJoin S_item then
-        if c_join_by_call cf then match i with SrcSub q _ => cov_q q | _ => c_item_ok cf end
-        else cov_src i
+        match c_src_mode cf KJoin with
+        | MCall => match i with SrcSub q _ => cov_q q | _ => c_item_ok cf end
+        | m => cov_src_m m i
+        end
       else negb (occ_src i)
-  | JOn _ i c => cov1 (vis KJoinOn S_item) (cov_src i) (occ_src i) && cov1 (vis KJoinOn S_criterion) (cov_wt c) (occ_wt c)
-  | JUsing _ i fs => cov1 (vis KJoinUsing S_item) (cov_src i) (occ_src i) && cov1 (vis KJoinUsing S_fields) (covs fs) (occs fs)
+  | JOn _ i c => cov1 (vis KJoinOn S_item) (cov_src_m (c_src_mode cf KJoinOn) i) (occ_src i)
+                 && cov1 (vis KJoinOn S_criterion) (cov_wt c) (occ_wt c)
+  | JUsing _ i fs => cov1 (vis KJoinUsing S_item) (cov_src_m (c_src_mode cf KJoinUsing) i) (occ_src i)
+                     && cov1 (vis KJoinUsing S_fields) (covs fs) (occs fs)
   end.
 
 (* _select_star_tables: `if current in set: set.remove(current); set.add(new)` *)
@@ -468,7 +485,7 @@ Definition rep_joins (s : stmt) : res (list qjoin) :=
 Definition rep_stmt_core (s : stmt) (withs : list (string * squery)) (joins : list qjoin) : stmt :=
   let k := skind s in
   {| s_clickhouse := s_clickhouse s;
-     s_from := ifv (vis k S__from) (map cmp_src) (s_from s);
+     s_from := ifv (vis k S__from) (map (src_total (c_src_mode cf KQuery))) (s_from s);
      s_insert := ifv (vis k S__insert_table) subst_otbl (s_insert s);
      s_update := ifv (vis k S__update_table) subst_otbl (s_update s);
      s_with := withs;
@@ -494,7 +511,7 @@ Definition rep_stmt (s : stmt) : res stmt :=
 
 Definition cov_stmt (s : stmt) : bool :=
   let k := skind s in
-  cov1 (vis k S__from) (forallb cov_src (s_from s)) (existsb occ_src (s_from s))
+  cov1 (vis k S__from) (forallb (cov_src_m (c_src_mode cf KQuery)) (s_from s)) (existsb occ_src (s_from s))
   && cov1 (vis k S__insert_table) true (occ_otbl A (s_insert s))
   && cov1 (vis k S__update_table) true (occ_otbl A (s_update s))
   && (if vis k S__with
